@@ -178,9 +178,18 @@ func runC04(p *Program, r *Report) {
 		}
 		okFn := inf.Sanitizer == rev && (inf.Sanitizer == "" || pl.Funcs[inf.Sanitizer] != nil)
 		if okFn && inf.Sanitizer != "" {
-			// the FuncMap entry is the function named after the context
-			want := "sanitize" + inf.Name
-			okFn = pl.Funcs[inf.Sanitizer].Name() == want
+			// the bound function must treat values the way the context promises (C03's classification):
+			// every nil-error return is a pass-through of an allowed type or the context's own treatment
+			pvs := NewProv(p)
+			pvs.NoInline = true
+			sum := summariseSanitizer(p, pvs, pl.Funcs[inf.Sanitizer])
+			var other []string
+			for _, k := range sum.Kinds() {
+				if k != "passthrough" {
+					other = append(other, k)
+				}
+			}
+			okFn = subsetOf(sum.PassTypes(), allowedPassThrough[inf.Name]) && subsetOf(other, fallbackKinds[inf.Name]) && len(other) > 0 && len(sum.Problems) == 0
 		}
 		r.Check(okFn, "C04.R1", c, "", fmt.Sprintf("bound to %q → %s", inf.Sanitizer, fnNameOrNone(pl.Funcs[inf.Sanitizer])), fmt.Sprintf("context %s is bound to %q (reviewed %q) → %s", inf.Name, inf.Sanitizer, rev, fnNameOrNone(pl.Funcs[inf.Sanitizer])))
 	}
@@ -753,17 +762,25 @@ func checkForbiddenPositions(p *Program, r *Report, rule string) {
 		}
 		return -1
 	}
-	// the state variable: load of c.state
+	// the state variable: load of c.state (every load of the unmodified field is the same value)
 	var stateVal ssa.Value
+	aliases := map[ssa.Value]bool{}
 	for _, b := range fn.Blocks {
 		for _, in := range b.Instrs {
-			if u, ok := in.(*ssa.UnOp); ok && stateVal == nil {
+			if u, ok := in.(*ssa.UnOp); ok {
 				e := pv.Of(u)
 				if e.Op == "field" && e.Name == "state" && e.Args[0].Op == "param" {
-					stateVal = u
+					if stateVal == nil {
+						stateVal = u
+					} else {
+						aliases[u] = true
+					}
 				}
 			}
 		}
+	}
+	if len(storesToField(fn, pkgTemplate, "context", "state")) > 0 {
+		aliases = map[ssa.Value]bool{} // the field is modified: loads are not interchangeable
 	}
 	if stateVal == nil {
 		r.Undec(rule, cn, p.Pos(fn.Pos()), "the state dispatch was not found")
@@ -773,7 +790,7 @@ func checkForbiddenPositions(p *Program, r *Report, rule string) {
 	for k := range states {
 		dom = dom.Union(relang.NewSet(int32(k), int32(k)))
 	}
-	lv := decisionTable(stateVal.(*ssa.UnOp).Block(), dtConfig{Var: stateVal, Dom: dom, Leaf: func(b *ssa.BasicBlock) (string, bool) {
+	lv := decisionTable(stateVal.(*ssa.UnOp).Block(), dtConfig{Var: stateVal, Aliases: aliases, Dom: dom, Leaf: func(b *ssa.BasicBlock) (string, bool) {
 		if ret, ok := b.Instrs[len(b.Instrs)-1].(*ssa.Return); ok {
 			if _, isErrorf := isCallTo(ret.Results[1], "fmt.Errorf"); isErrorf {
 				return "error", true
